@@ -233,6 +233,18 @@ func genMergeInputs(c *ctx, k int, syn bool) []*segEnt {
 				b = sb
 			}
 		}
+		if c.R.Chance(6) && len(b) > 0 {
+			// one field name keeps its instances (stored values) but loses every token: the segment
+			// knows the field and has an empty dictionary for it
+			victim := o.FName(c.R.Intn(o.NFields))
+			for di := range b {
+				for fi := range b[di].Fields {
+					if f := &b[di].Fields[fi]; f.Name == victim {
+						f.Toks, f.Len, f.Stored = nil, 0, true
+					}
+				}
+			}
+		}
 		if syn {
 			b = zh.AddSynDocs(c.R, b, o.IDBase)
 		}
@@ -303,8 +315,19 @@ func mergeRounds(c *ctx, rounds int, syn bool, parts []int, checkMaps bool, prop
 		pool := genMergeInputs(c, 2+c.R.Intn(3), syn)
 		steps := 1 + c.R.Intn(3)
 		ok := true
+		var reuseFirst *segEnt // the output of a merge in which nothing survived: it goes first into the next merge
 		for s := 0; s < steps && ok; s++ {
 			mc := genMergeCase(c, pool)
+			if reuseFirst != nil {
+				mc.ins[0], mc.drops[0], mc.nilBM[0] = reuseFirst, nil, true
+				if len(mc.ins) == 1 {
+					e := pool[c.R.Intn(len(pool))]
+					d, isNil := genDrops(c, e.n)
+					mc.ins, mc.drops, mc.nilBM = append(mc.ins, e), append(mc.drops, d), append(mc.nilBM, isNil)
+				}
+				reuseFirst = nil
+				c.Count("zero_survivor_output_reused_first")
+			}
 			key := mc.describe()
 			surv := survivors(mc)
 			c.Case(key, len(mc.ins) >= 2 && surv >= 2)
@@ -374,6 +397,12 @@ func mergeRounds(c *ctx, rounds int, syn bool, parts []int, checkMaps bool, prop
 			}
 			// the output joins the pool (chains of merges)
 			pool = append(pool, &segEnt{seg: r.seg, spec: spec, n: spec.L[pNDocs].N, prov: "merged", desc: "output of: " + clip(key), depth: maxDepth + 1})
+			if surv == 0 {
+				reuseFirst = pool[len(pool)-1]
+				if s == steps-1 && steps < 4 {
+					steps++ // one more merge so that the empty output is used
+				}
+			}
 		}
 		for _, e := range pool {
 			e.close()
